@@ -73,12 +73,16 @@ struct SockRun {
     }
 };
 
-Val run_sock(const Val &c)
+static Val runSock(const Val &c, bool linger);
+Val run_sock(const Val &c) { return runSock(c, false); }
+static Val run_sockl(const Val &c) { return runSock(c, true); }
+static Val runSock(const Val &c, bool linger)
 {
     SockRun r;
     r.policy = c.at(0);
     if (r.policy.size() != 3) return badcase();
     SimTcp *sim = new SimTcp;
+    sim->lingerMode = linger;
     r.tcp = sim;
     sim->onWrite = [&r](const QByteArray &b) { r.log.add(Val::List({Val::Int(5), Val::Bytes(b)})); };
     sim->onClose = [&r]() { r.log.add(Val::List({Val::Int(6)})); };
@@ -153,4 +157,4 @@ static Val run_socknet(const Val &c)
     return Val::List({Val::Bytes(got), Val::Bool(closed)});
 }
 
-void reg_sock() { registerFamily("sock", run_sock); registerFamily("socknet", run_socknet); }
+void reg_sock() { registerFamily("sock", run_sock); registerFamily("sockl", run_sockl); registerFamily("socknet", run_socknet); }
